@@ -295,8 +295,8 @@ def r4_4(ctx: Ctx) -> RuleResult:
 _IDENTITY_ENCODINGS = {"latin-1", "latin1", "iso-8859-1", "iso8859-1", "l1"}
 
 
-def r4_5(ctx: Ctx) -> RuleResult:
-    rr = RuleResult("R4.5", "unicode-escape decoder is fed bytes that preserve non-ASCII text", floor=1)
+def r4_5(ctx: Ctx, rule: str = "R4.5") -> RuleResult:
+    rr = RuleResult(rule, "unicode-escape decoder is fed bytes that preserve non-ASCII text", floor=1)
     for fn in pointer_funcs(ctx):
         for c in calls(fn.node, "decode"):
             codec = None
@@ -389,7 +389,18 @@ def r4_7(ctx: Ctx) -> RuleResult:
             rr.bad(fn, r, f"`{short(r)}` returns a non-standard reading of the token without the plain lookup having failed: a member whose "
                    "name is the token itself (e.g. `#a` next to `a`) can no longer be reached by its own pointer",
                    construct=f"_getitem: {short(r)} before the plain lookup")
+    # before the plain lookup nothing depends on the token: a test on `key` that can leave the function ahead of the
+    # lookup (`if key == "-": raise ...`) makes the member of that name unreachable
     _ = parents
+    for st in fn.node.body:
+        if st is plain_try:
+            break
+        if any(n is plain_try for n in ast.walk(st)):
+            break
+        leaves = any(isinstance(n, (ast.Raise, ast.Return)) for n in ast.walk(st))
+        if isinstance(st, ast.If) and leaves and any(isinstance(n, ast.Name) and n.id == key for n in ast.walk(st.test)):
+            rr.bad(fn, st, f"`if {short(st.test)}: ...` decides on the token before the plain lookup: a member whose name is that token "
+                   "(e.g. `-` in an object) can no longer be reached", construct=f"_getitem: test on the token before the plain lookup ({short(st.test, 40)})")
     return rr
 
 
